@@ -1020,23 +1020,40 @@ def check_v2_reader_eval(chk) -> bool:
         water = pdb_line(sp, "HETATM", dict(fields, resName="HOH", name=" O  ", element=" O"))
         hydrogen = pdb_line(sp, "ATOM", dict(fields, name=" H5'", element=" H"))
         doc = [m(1), atom_line, hydrogen, "TER".ljust(80), water, "ENDMDL".ljust(80), m(2), atom_line, "TER".ljust(80), water, "ENDMDL".ljust(80), "END".ljust(80)]
-        full = rd.read(doc)
-        models = [None if isna(v) else int(v) for v in full._cols.get("model", [])]
-        kinds = list(full._cols.get("record_type", []))
-        if models != [1, 1, 1, 2, 2] or kinds != ["ATOM", "ATOM", "HETATM", "ATOM", "HETATM"]:
-            other.append(f"a file with MODEL 1 (two atoms, TER, a water) and MODEL 2 (one atom, TER, a water) yields records {kinds} of models {models}")
-        nomodel = rd.read([atom_line])
-        if [int(v) for v in nomodel._cols.get("model", []) if not isna(v)] != [1]:
-            other.append(f"without a MODEL record an atom gets model {list(nomodel._cols.get('model', []))}")
-        if nomodel.attrs.get("format") != "PDB":
-            other.append(f"the table is tagged format={nomodel.attrs.get('format')!r}, not 'PDB'")
-        empty = rd.read(["REMARK   1 no atoms here".ljust(80)])
-        if len(empty.index) != 0 or [c for c in sp["atom"] if c not in empty._cols] or "model" not in empty._cols:
+        blank_bad: Dict[str, Any] = {}
+
+        def whole(lines, what):
+            """the table of a document; an exception of the interpreted reader is a finding about the reader, not a failure of the rule"""
+            try:
+                return rd.read(lines)
+            except Unknown:
+                raise
+            except Raised as ex:
+                other.append(f"{what}: parse_pdb_atoms raises {ex.name} (the handle had been read to its end before, as after is_cif(f))")
+            except Exception as ex:
+                other.append(f"{what}: parse_pdb_atoms raises {type(ex).__name__} ({str(ex)[:40]}) (the handle had been read to its end before, as after is_cif(f))")
+            return None
+
+        full = whole(doc, "a file with two models")
+        if full is not None:
+            models = [None if isna(v) else int(v) for v in full._cols.get("model", [])]
+            kinds = list(full._cols.get("record_type", []))
+            if models != [1, 1, 1, 2, 2] or kinds != ["ATOM", "ATOM", "HETATM", "ATOM", "HETATM"]:
+                other.append(f"a file with MODEL 1 (two atoms, TER, a water) and MODEL 2 (one atom, TER, a water) yields records {kinds} of models {models}")
+        nomodel = whole([atom_line], "a file of one atom record")
+        if nomodel is not None:
+            if [int(v) for v in nomodel._cols.get("model", []) if not isna(v)] != [1]:
+                other.append(f"without a MODEL record an atom gets model {list(nomodel._cols.get('model', []))}")
+            if nomodel.attrs.get("format") != "PDB":
+                other.append(f"the table is tagged format={nomodel.attrs.get('format')!r}, not 'PDB'")
+            if len(nomodel.index) == 1:
+                decoded = {c: nomodel._cols[c][0] for c in nomodel._cols}
+        empty = whole(["REMARK   1 no atoms here".ljust(80)], "a file without atom records")
+        if empty is not None and (len(empty.index) != 0 or [c for c in sp["atom"] if c not in empty._cols] or "model" not in empty._cols):
             other.append("a file without atom records does not give an empty table with the PDB columns")
-        if len(nomodel.index) == 1:
-            decoded = {c: nomodel._cols[c][0] for c in nomodel._cols}
-        blank = rd.read([pdb_line(sp, "ATOM", {k: v for k, v in fields.items() if k not in ("altLoc", "iCode", "element", "charge")})])
-        blank_bad = {k: blank._cols[k][0] for k in ("altLoc", "iCode", "element", "charge") if len(blank.index) == 1 and not isna(blank._cols[k][0])} if len(blank.index) == 1 else {"line": "not decoded"}
+        blank = whole([pdb_line(sp, "ATOM", {k: v for k, v in fields.items() if k not in ("altLoc", "iCode", "element", "charge")})], "an atom record with blank optional fields")
+        if blank is not None:
+            blank_bad = {k: blank._cols[k][0] for k in ("altLoc", "iCode", "element", "charge") if len(blank.index) == 1 and not isna(blank._cols[k][0])} if len(blank.index) == 1 else {"line": "not decoded"}
     except Unknown as ex:
         chk.ok("pdb-reader-v2-eval", fi.where, f"parse_pdb_atoms is not evaluable as a whole on representative documents ({str(ex)[:80]}): the line loop is evaluated line by line")
         return False
